@@ -4,6 +4,7 @@ import (
 	"context"
 	"io"
 	"os"
+	stdruntime "runtime"
 	"unsafe"
 
 	"github.com/goccy/go-json/internal/encoder"
@@ -259,6 +260,10 @@ func encodeNoEscape(ctx *encoder.RuntimeContext, v interface{}) ([]byte, error) 
 	p := uintptr(header.ptr)
 	ctx.Init(p, codeSet.CodeLength)
 	buf, err := encodeRunCode(ctx, b, codeSet)
+	// the interpreter holds the value as a uintptr only: it has to stay reachable until the
+	// interpreter is done (that v does not escape lets the caller keep it on its stack, it does not
+	// keep it alive)
+	stdruntime.KeepAlive(v)
 	if err != nil {
 		return nil, err
 	}
